@@ -21,7 +21,9 @@ BINARY == <<>>
 IMAGE == <<13>>
 
 TitleV == [ absent |-> None, empty |-> Some([type |-> TEXT, data |-> <<>>]), short |-> Some([type |-> TEXT, data |-> <<84>>]),
-            long |-> Some([type |-> TEXT, data |-> Txt(300)]) ]
+            long |-> Some([type |-> TEXT, data |-> Txt(300)]),
+            \* text whose last byte is NUL, and the single NUL: the accessor returns the bytes of the data box as they are
+            nulend |-> Some([type |-> TEXT, data |-> <<84, 105, 0>>]), nul |-> Some([type |-> TEXT, data |-> <<0>>]) ]
 YearV == [ absent |-> None,
            text2008 |-> Some([type |-> TEXT, data |-> <<50, 48, 48, 56>>]),
            bin2008 |-> Some([type |-> BINARY, data |-> <<0, 0, 7, 216>>]),
@@ -47,6 +49,7 @@ YearV == [ absent |-> None,
 PosterV == [ absent |-> None, empty |-> Some([type |-> IMAGE, data |-> <<>>]), one |-> Some([type |-> IMAGE, data |-> <<137>>]),
              big |-> Some([type |-> IMAGE, data |-> Bin(300)]) ]
 SummaryV == [ absent |-> None, short |-> Some([type |-> TEXT, data |-> <<115>>]),
+              nulend |-> Some([type |-> TEXT, data |-> <<115, 32, 0>>]),
               utf8 |-> Some([type |-> TEXT, data |-> <<195, 169, 226, 130, 172, 240, 159, 142, 172, 32, 111, 107>>]) ]
 UnkItem(i) == [cc |-> <<169, 116, 111, 111 + i>>, type |-> TEXT, data |-> <<120, 121>>]
 
